@@ -1,4 +1,5 @@
 import Model.ApiConv
+import Props.C18X
 import Lemmas.Wire
 import Lemmas.ApiConv
 /-!
